@@ -90,11 +90,33 @@ func (b *BFS[Op]) Run() {
 					}
 					if st.VKey != "" {
 						if b.Confirm {
-							st2 := b.Exec(hist)
-							if st2.VKey != st.VKey {
-								c.EngineError(fmt.Sprintf("non-deterministic oracle: first run %q, second run %q on %s", st.VKey, st2.VKey, mustJSON(hist)))
-								stop.Store(true)
-								return
+							// Re-execute from scratch.  The same history must fail again; if
+							// it does not, run it three more times: a violation that recurs is
+							// reported as intermittent (the code under test has a source of
+							// nondeterminism the harness does not own, e.g. random tokens and
+							// map order), one that never recurs is a harness error.
+							again, runs := 0, 0
+							for k := 0; k < 4; k++ {
+								runs++
+								st2 := b.Exec(hist)
+								if st2.VKey == st.VKey && k == 0 {
+									again++
+									break // deterministic: the usual case
+								}
+								if st2.VKey != "" {
+									again++ // the history fails again, possibly with another symptom
+								}
+							}
+							if again == 0 {
+								// Not reported: either the harness is nondeterministic or the
+								// failure is rare.  Counted; the parent turns a run that has
+								// unconfirmed failures and no confirmed one into an engine error.
+								c.Count("unconfirmed_violations", 1)
+								c.Note("unconfirmed_violation", fmt.Sprintf("%q did not recur in 4 re-executions of %s", st.VKey, mustJSON(hist)))
+								continue
+							}
+							if runs > 1 {
+								st.VDesc = fmt.Sprintf("(intermittent: recurred in %d of %d re-executions of the same history) ", again, runs) + st.VDesc
 							}
 						}
 						c.Violation(st.VKey, st.VDesc, hist)
